@@ -1235,7 +1235,11 @@ func (r *run) repairUntil(want uint32) {
 				r.viol("C08", "repair-not-local", fmt.Sprintf("the repair round on page %d changed the stored leaf of page %d", pg, k))
 			}
 		}
-		delete(r.corrupt, pg)
+		// the page counts as repaired only if the STORED leaf now equals the XOR of the stored transactions of that page
+		// (a round that runs between a rollback and its reload compares a temporarily different in-memory leaf)
+		if r.diskLeafClean(pg, after[pg]) {
+			delete(r.corrupt, pg)
+		}
 		if pg == want {
 			visited = true
 		}
@@ -1243,6 +1247,24 @@ func (r *run) repairUntil(want uint32) {
 	if !visited && want*dag.PageSize <= s.maxLc {
 		r.viol("C08", "repair-skips-page", fmt.Sprintf("the repair loop never visits page %d (highest clock %d)", want, s.maxLc))
 	}
+}
+
+func (r *run) diskLeafClean(pg uint32, leaf []byte) bool {
+	s, err := readStored(r.inc.inner)
+	if err != nil {
+		return false
+	}
+	x := tree.NewXor()
+	for _, ref := range s.refs {
+		if s.clock[ref]/dag.PageSize == pg {
+			x.Insert(ref)
+		}
+	}
+	want, _ := x.MarshalBinary()
+	if leaf == nil {
+		return x.Empty()
+	}
+	return bytes.Equal(want, leaf)
 }
 
 func (r *run) realPage(abstract uint32) uint32 {
@@ -1350,8 +1372,11 @@ func (r *run) finish(actors map[string]bool) *result {
 	r.settle()
 	// pages the environment corrupted and the script did not repair: the repair procedure must restore them
 	for pg := range r.corrupt {
-		r.repairUntil(pg)
-		delete(r.corrupt, pg)
+		r.repairUntil(pg) // at a quiescent moment the repair must restore the page
+		if _, still := r.corrupt[pg]; still {
+			r.viol("C08", "repair-ineffective", fmt.Sprintf("the repair loop visited page %d at a quiescent moment but its stored leaf still differs from the recomputed value", pg))
+			delete(r.corrupt, pg)
+		}
 	}
 	for i := 0; i < r.restarts; i++ {
 		if err := r.crash(); err != nil {
